@@ -141,6 +141,7 @@ def run(tape, kind):
     if out.inconclusive:
         return out
     sr.check_in_order(out, run_, continuing=(wl['method'] != 'rejection'))
+    run_.check_results_stable('same-result')
 
     # same-result
     for i, (a, b) in enumerate(zip(ref_res, res)):
